@@ -80,11 +80,17 @@ func (propC02) Draw(rt *rapid.T, w *WorldDesc, mode string) *Plan {
 		l := fmt.Sprintf("op%d", i)
 		md := methods[rapid.IntRange(0, len(methods)-1).Draw(rt, l+".rpc")]
 		rpc := w.RPC(md.Key)
-		op := &Op{ID: i, RPC: md.Key, Client: "raw", Server: "go", App: AppBehaviour{Kind: "respond"}}
+		op := &Op{ID: i, RPC: md.Key, Client: "raw", Server: drawServer(rt, l+".server"), App: AppBehaviour{Kind: "respond"}}
 		req := drawValidReq(rt, w, md, l+".req")
+		if op.Server == "ts" {
+			scrubNonFinite(req.ProtoReflect(), 0)
+		}
 		// URL-bound float fields: NaN has no equality; keep them finite so the oracle can compare
 		scrubNaN(req, rpc)
 		ct := rapid.SampledFrom([]string{"application/json", "application/json", "application/x-protobuf", ""}).Draw(rt, l+".ct")
+		if op.Server == "ts" {
+			ct = "application/json"
+		}
 		hdrs := ValidHeaders(rpc, i)
 		target, err := BuildTarget(rpc, req, rapid.Bool().Draw(rt, l+".queryAll"))
 		if err != nil {
@@ -132,6 +138,9 @@ func (propC02) Draw(rt *rapid.T, w *WorldDesc, mode string) *Plan {
 		case "full-other":
 			// a body with other fields only (drawn independently of the URL-bound ones)
 			other := drawValidReq(rt, w, md, l+".other")
+			if op.Server == "ts" {
+				scrubNonFinite(other.ProtoReflect(), 0)
+			}
 			bm := BodyMessage(rpc, other)
 			raw.Body, _ = EncodeBody(bm, fam)
 			want = proto.Clone(bm)
@@ -338,7 +347,7 @@ func (propC02) Check(k *Kernel, cov *Coverage) *Violation {
 		if err := proto.Unmarshal(c.Op.ReqBin, want); err != nil {
 			continue
 		}
-		if ruleViolation(want) != nil {
+		if ruleViolation(want) != nil && c.Op.Server == "go" {
 			// the merged message breaks a validation rule: 400 is the documented outcome
 			if c.Status == 400 && len(c.Seen) == 0 {
 				cov.Tuple(k.W.Name, c.Op.RPC, c.Op.Server, "rule-rejected")
@@ -350,6 +359,10 @@ func (propC02) Check(k *Kernel, cov *Coverage) *Violation {
 				Detail: fmt.Sprintf("op %d %s %s body=%q: want dispatch with %s; got status %d dispatched=%d resp=%q", c.Op.ID, c.Op.Raw.Verb, c.Op.Raw.Target, truncBytes(c.Op.Raw.Body), jsonOf(want), c.Status, len(c.Seen), truncBytes(c.RespBody))}
 		}
 		got := c.Seen[0].Req
+		if got == nil {
+			return &Violation{Class: "ts-handler-input-not-contract-json", Signature: sig("ts-handler-input-not-contract-json", ""),
+				Detail: fmt.Sprintf("op %d %s %s: the TS route passed %s to the handler: %s", c.Op.ID, c.Op.Raw.Verb, c.Op.Raw.Target, truncBytes(c.Seen[0].JSON), c.Seen[0].JSONErr)}
+		}
 		if !proto.Equal(got, want) {
 			f := firstDiff(want, got)
 			return &Violation{Class: "url-field-lost", Signature: sig("url-field-lost", placeOf(fieldShape(k.W, rpc, rpc.In, f))),
